@@ -9,7 +9,7 @@ from .. import gram, batch, parsefam as P
 def run(tier):
     ck = C.Check("C17", tier)
     failed = ck.proofs()
-    ng = 6 if tier == "quick" else 60
+    ng = 10 if tier == "quick" else 80
     workers = 8 if tier == "quick" else 64
     b = batch.Batch("c17")
     conc_runs = 0
@@ -28,7 +28,8 @@ def run(tier):
             flags = ["-a"] + (["-zip"] if k % 2 else []) + (["-debug_lexer", "-debug_parser"] if k % 3 == 2 else [])
             gs.append((g, b.add(g, flags=flags), flags))
         b.generate()
-        ok = [i for g, i, fl in gs if b.items[i]["rc"] == 0]
+        # conflict-free grammars only: a parser resolved with -a may loop by itself (C02/C05), which is not a concurrency matter
+        ok = [i for g, i, fl in gs if b.items[i]["rc"] == 0 and P.conflicts_reported(b.items[i]["out"]) == 0]
         # premise: no write to package-level state outside init(), extracted from the generated source
         drv = C.build_drv()
         for g, i, fl in gs:
